@@ -7,14 +7,15 @@ def main():
               dict(pkg='compiler/internal/context_v2', rel='internal/context_v2', harnesses=['HarnessC15Graph'], max_paths=400000, wall_timeout=1700),
               dict(pkg='compiler/internal/verifrt/fe', rel='internal/verifrt/fe', harnesses=['HarnessC14LitIDs'], max_paths=100000),
               dict(pkg='compiler/internal/codegen/qbe_embeddings', rel='internal/codegen/qbe_embeddings', harnesses=['HarnessC14EmitOrder']),
-              dict(pkg='compiler/internal/codegen/wasm', rel='internal/codegen/wasm', harnesses=['HarnessC14WasmOrder'])]
+              dict(pkg='compiler/internal/codegen/wasm', rel='internal/codegen/wasm', harnesses=['HarnessC14WasmOrder']),
+              dict(pkg='compiler/internal/mir/gen', rel='internal/mir/gen', harnesses=['HarnessC14VTableOrder'])]
     groups += [dict(pkg='compiler/internal/pipeline', rel='internal/pipeline', harnesses=['HarnessC15Schedule%d' % k], max_paths=400000, max_instrs=200000000, wall_timeout=2400) for k in (5,)]
     rc = gocheck.run('C14', 'other', groups, gocheck.GOSYM_ASSUME + [
         'sort.Slice is executed as the real library does (sort.pdqsort_func interpreted from source); sort.SliceStable as a stable insertion sort',
         'PARTIAL: the order of arrival of diagnostics in the shared bag and the iteration order of Go maps (ascending / descending keys) are symbolic; real goroutine schedules of module parsing end to end are NOT covered; the map iteration inside the QBE / wasm emitters is covered on hand-built MIR programs only (HarnessC14EmitOrder, HarnessC14WasmOrder)',
         'HarnessC14LitIDs: the REAL lexer and parser on two modules (function literals, anonymous struct, enum, interface) run as two logical threads under the cooperative scheduler of the interpreter (a thread can be pre-empted only before a lock or atomic operation; every interleaving at that granularity is explored); native replay repeats the harness with real goroutines until the assertion fails once',
         'HarnessC15Schedule5 (shared with C15): the real module scheduler (processModule / parseModule with goroutines, WaitGroup, sync.Map) on a nine-module two-level fan under delay-bounded scheduling (<= 1 delay; one modelled processor): the outcome (no hang, every module parsed once, no error, complete build order) is the same under every explored schedule',
-    ], 'PARTIAL (kernels): (f) wasm EmitProgram on hand-built three-module programs, two modules defining functions of the same name, under ascending and descending iteration order of every Go map: byte-identical binary; (e) qbe Generator.Emit on a hand-built MIR module (three type IDs, two vtables, two functions) under ascending and descending iteration order of every Go map: byte-identical IL; (d) the real module scheduler under delay-bounded schedules (see assumptions): schedule-independent outcome, no schedule hangs; (c) the process-global literal-ID counter (utils.GenerateFuncLitID) used by two concurrently parsed modules, under every interleaving of its atomic operations: the IDs a module\'s function literals receive must not depend on the interleaving (they become symbol names in the generated code) - KNOWN FINDING D8 on the pinned tree; (a) sortDiagnostics on 13 diagnostics of two concurrently parsed modules for every interleaving of their arrival (C(13,6) = 1716, the interleaving is a symbolic choice): the emitted order is the same for all; (b) ComputeTopologicalOrder after every sequence of up to 4 AddDependency calls, for both iteration directions of the module and dependency maps (shared with C15): a complete, dependency-respecting order.')
+    ], 'PARTIAL (kernels): (g) mir/gen GenerateModule with three collected vtables under both map iteration orders: same vtable list; (f) wasm EmitProgram on hand-built three-module programs, two modules defining functions of the same name, under ascending and descending iteration order of every Go map: byte-identical binary; (e) qbe Generator.Emit on a hand-built MIR module (three type IDs, two vtables, two functions) under ascending and descending iteration order of every Go map: byte-identical IL; (d) the real module scheduler under delay-bounded schedules (see assumptions): schedule-independent outcome, no schedule hangs; (c) the process-global literal-ID counter (utils.GenerateFuncLitID) used by two concurrently parsed modules, under every interleaving of its atomic operations: the IDs a module\'s function literals receive must not depend on the interleaving (they become symbol names in the generated code) - KNOWN FINDING D8 on the pinned tree; (a) sortDiagnostics on 13 diagnostics of two concurrently parsed modules for every interleaving of their arrival (C(13,6) = 1716, the interleaving is a symbolic choice): the emitted order is the same for all; (b) ComputeTopologicalOrder after every sequence of up to 4 AddDependency calls, for both iteration directions of the module and dependency maps (shared with C15): a complete, dependency-respecting order.')
     sys.exit(rc)
 
 if __name__ == '__main__':
